@@ -779,6 +779,36 @@ def check_forward(rec, c, table, model, ref, nrm, ref_m, nrm_m, allow):
                 {**info, 'emg3d': d, 'reference': r_})
         else:
             passed.append(irun)
+            # History step: the observations are removed again on the same
+            # survey object (in place); a recompute must then return the
+            # reference for ALL triples ("or all, if there is none").
+            if irun == 0 and obs is not None and np.isfinite(obs).any() and \
+                    c['cls'] == 'regular':
+                try:
+                    survey.data.observed[...] = np.nan + 1j*np.nan
+                    sim.clean('computed')
+                    sim.compute()
+                    d2 = np.array(sim.data.synthetic.data)
+                except Exception as e2:  # noqa
+                    rec.inconclusive(f'recompute after removing the '
+                                     f'observations raised '
+                                     f'{type(e2).__name__}: {e2}', info)
+                    d2 = None
+                if d2 is not None:
+                    rec.event('recompute_without_observations')
+                    e2 = _err(d2, r_, n_)
+                    fin = bool(np.all(np.isfinite(d2)))
+                    w2 = float(np.max(e2)) if fin else float('nan')
+                    lim = TOL_DATA + (float(np.max(allow[merged]))
+                                      if merged in allow else 0.0)
+                    if not fin or not (w2 <= max(lim, 10*max(worst, 0.0))):
+                        rec.violation(
+                            'C19:stale-observation-pattern-after-data-removed',
+                            f'after the observed data were set to NaN in '
+                            f'place and the simulation cleaned, compute() '
+                            f'returned {int(np.sum(~np.isfinite(d2)))} '
+                            f'non-finite of {d2.size} wanted responses '
+                            f'(max err {w2:.3e})', info)
         # what is stored where nothing was asked for (informative only)
         if not want.all():
             rest = ~want
